@@ -650,7 +650,9 @@ def classify(ds, base, prog, probs, res):
         comp = "multi-index"
     elif base["pcols"] and nsel == 0 and what in ("columns", "error"):
         comp = "empty-selection-partition-columns"
-    elif any(k in F.NULLABLE_INT or k == "boolean" for k in ikinds) and "NAType" in msg:
+    elif "NAType" in msg and any(k in F.NULLABLE_INT or k == "boolean" or
+                                 (k == "cat_int" and rd[0] == "iter" and rd[3] is not None and n not in rd[3])   # read as nullable int
+                                 for n, k in zip(inames, ikinds)):
         comp = "nullable-index"
     elif (rd[0] == "iter" and rd[3] is not None and "NAType" in msg
           and any(c["kind"] == "cat_int" and c["nulls"] != "none" and c["name"] not in rd[3] for c in ds["extra"])):
